@@ -33,8 +33,7 @@ def gen_expr(cx, out, depth_ix=None):
         # read an element of an Array-valued variable (public or secret index); the alias register is used at once and never again
         v = r.choice(sorted(cx.arrays))
         t = cx.reg(); out.append(["bget", t, v])
-        i = array_index(cx, out, cx.arrays[v])
-        a = cx.reg(); out.append(["arrget", a, t, [i]])
+        a = cx.reg(); out.append(["arrget", a, t, array_indexes(cx, out, cx.arrays[v])])
     elif cx.lists and k < 0.25:
         v = r.choice(sorted(cx.lists))
         a = cx.reg(); out.append(["bgetidx", a, v, r.choice(cx.paths(v))])
@@ -60,6 +59,12 @@ def array_index(cx, out, n):
     if n >= 3 and r.random() < 0.3: return 2
     i = cx.reg(); out.append(["const", i, ["int", r.randrange(0, n)]])
     return i
+
+
+def array_indexes(cx, out, shape):
+    """index list for a 1-D (shape = n) or 2-D (shape = (rows, cols)) array variable"""
+    if isinstance(shape, int): return [array_index(cx, out, shape)]
+    return [array_index(cx, out, shape[0]), array_index(cx, out, shape[1])]
 
 
 def gen_cond(cx, out, depth_ix=None):
@@ -90,8 +95,7 @@ def gen_body(cx, depth, length, ix=None, in_loop=False):
             # in-place write into an Array-valued variable: _.v[i] = e
             v = r.choice(sorted(cx.arrays))
             e = gen_expr(cx, out, ix)
-            i = array_index(cx, out, cx.arrays[v])
-            out.append(["barrset", v, [i], e])
+            out.append(["barrset", v, array_indexes(cx, out, cx.arrays[v]), e])
         elif (k < 0.55 or depth >= 2) and cx.lists and r.random() < 0.45:
             # in-place write into a (nested) list variable: _.v[i][j] = e
             v = r.choice(sorted(cx.lists))
@@ -172,7 +176,20 @@ def gen_case(rnd, moduli, bitlengths=(5, 6)):
             if rnd.random() < 0.5: prog.append(["constval", r0, rnd.choice([0, 1, 2, 7])])
             else: prog.append(["bin", r0, "add", rnd.choice([0, 1, 2]), rnd.choice([0, 1, 2])])
             es.append(r0)
-        d = cx.reg(); prog.append(["arrnew", d, es]); prog.append(["bset", v, d]); cx.arrays[v] = n
+        if rnd.random() < 0.4:
+            # a 2-D Array (an Array of row Arrays): cells are written in place at public or secret row / column indexes
+            rows = [es]
+            for _ in range(rnd.choice([1, 2])):
+                es2 = []
+                for _ in range(n):
+                    r0 = cx.reg(); prog.append(["constval", r0, rnd.choice([0, 1, 2, 7])]); es2.append(r0)
+                rows.append(es2)
+            rregs = []
+            for rw in rows:
+                rr = cx.reg(); prog.append(["arrnew", rr, rw]); rregs.append(rr)
+            d = cx.reg(); prog.append(["arrnew", d, rregs]); prog.append(["bset", v, d]); cx.arrays[v] = (len(rows), n)
+        else:
+            d = cx.reg(); prog.append(["arrnew", d, es]); prog.append(["bset", v, d]); cx.arrays[v] = n
     if rnd.random() < 0.4:
         v = cx.nvars + 2
         c0 = gen_cond(cx, prog)
@@ -210,18 +227,28 @@ def twin(case, cap_for=True):
                 a, b = regs[s[3]], regs[s[4]]
                 regs[s[1]] = {"add": lambda: a + b, "sub": lambda: a - b, "mul": lambda: a * b, "lt": lambda: int(a < b), "le": lambda: int(a <= b),
                               "eq": lambda: int(a == b), "ne": lambda: int(a != b), "gt": lambda: int(a > b), "ge": lambda: int(a >= b)}[s[2]]()
-            elif op == "bset": vals[s[1]] = list(regs[s[2]]) if isinstance(regs[s[2]], list) and s[1] in case.get("arrays", ()) else regs[s[2]]
+            elif op == "bset":
+                x = regs[s[2]]
+                vals[s[1]] = ([list(r_) if isinstance(r_, list) else r_ for r_ in x] if isinstance(x, list) and s[1] in case.get("arrays", ()) else x)
             elif op == "bget": regs[s[1]] = vals[s[2]]
             elif op == "list": regs[s[1]] = [regs[i] for i in s[2]]
             elif op == "arrnew": regs[s[1]] = [regs[i] for i in s[2]]
             elif op == "arrget":
-                i = regs[s[3][0]]
-                if not (0 <= i < len(regs[s[2]])): raise TwinError("index")
-                regs[s[1]] = regs[s[2]][i]
+                t = regs[s[2]]
+                for q in s[3]:
+                    i = regs[q]
+                    if not (0 <= i < len(t)): raise TwinError("index")
+                    t = t[i]
+                regs[s[1]] = t
             elif op == "barrset":
-                i = regs[s[2][0]]
-                if not (0 <= i < len(vals[s[1]])): raise TwinError("index")
-                vals[s[1]][i] = regs[s[3]]
+                t = vals[s[1]]
+                for q in s[2][:-1]:
+                    i = regs[q]
+                    if not (0 <= i < len(t)): raise TwinError("index")
+                    t = t[i]
+                i = regs[s[2][-1]]
+                if not (0 <= i < len(t)): raise TwinError("index")
+                t[i] = regs[s[3]]
             elif op == "bsetidx":
                 t = vals[s[1]]
                 for i in s[2][:-1]: t = t[i]
